@@ -564,7 +564,7 @@ class Engine:
             if rv["op"] == "Neg" and isinstance(a, K):
                 return K(-a.v)
             if rv["op"] == "Not" and isinstance(a, SymV):
-                return st.fresh(("not", a.id))
+                return st.fresh(("unop", "Not", snapshot(a)))
             if rv["op"] == "PtrMetadata":
                 if isinstance(a, RefV):
                     t = load(Loc(a.cell, a.path))
@@ -1266,6 +1266,17 @@ def m_unwrap_or_default(eng, st, fr, t, name, rname, args):
     return NotImplemented
 
 
+def m_unwrap_or_else(eng, st, fr, t, name, rname, args):
+    v = eng.resolve(st, args[0])
+    if isinstance(v, EnumV) and v.name in ("Some", "Ok"):
+        return v.fields.get(0, TOP)
+    if isinstance(v, EnumV) and v.name == "Err":
+        return eng.call_closure(st, fr, args[1], [v.fields.get(0, TOP)], t)
+    if isinstance(v, EnumV) and v.name == "None":
+        return eng.call_closure(st, fr, args[1], [], t)
+    return NotImplemented
+
+
 def m_deref_id(eng, st, fr, t, name, rname, args):
     return args[0]
 
@@ -1305,6 +1316,8 @@ DEFAULT_MODELS = {
     "core::option::Option::expect": lift(None, m_unwrap, "option"),
     "core::result::Result::unwrap": lift(None, m_unwrap, "result"),
     "core::result::Result::expect": lift(None, m_unwrap, "result"),
+    "core::option::Option::unwrap_or_else": lift(None, m_unwrap_or_else, "option"),
+    "core::result::Result::unwrap_or_else": lift(None, m_unwrap_or_else, "result"),
     "core::option::Option::unwrap_or_default": lift(None, m_unwrap_or_default, "option"),
     "core::result::Result::unwrap_or_default": lift(None, m_unwrap_or_default, "result"),
     "core::ops::Deref::deref": m_deref_id,
